@@ -46,7 +46,54 @@ def polynomial(e, routine, idx_=None, tol_name="tol"):
         if isinstance(x, ast.BinOp) and isinstance(x.op, ast.Mult):
             l, r = go(x.left), go(x.right)
             return None if l is None or r is None else mul(l, r)
+        if isinstance(x, ast.Call) and idx_ is not None and depth[0] < 3:
+            # a plain helper of the same package (`stopping_threshold(r0, tol, xnp)`): its returned expression with the arguments bound
+            r_ = idx_.resolve_expr(routine.module, x.func, routine)
+            if r_ is not None and r_.kind == "funcs" and getattr(r_.val[-1], "rule", None) is None:
+                callee = r_.val[-1]
+                rets = [y for y in df.returns(callee.node) if y.value is not None]
+                if len(rets) == 1:
+                    bound = df.bind_call(x, callee.params)
+                    # the callee's names for the tolerance / the residual are whatever the arguments are
+                    tol_params = {p_ for p_, a_ in bound.items() if isinstance(a_, ast.Name) and a_.id == tol_name}
+                    inner_tol = next(iter(tol_params), None)
+                    depth[0] += 1
+                    try:
+                        sub = polynomial_in(rets[0].value, callee, bound, inner_tol)
+                    finally:
+                        depth[0] -= 1
+                    return sub
         return None
+
+    depth = [0]
+
+    def polynomial_in(expr, callee, bound, inner_tol):
+        """the callee's return expression; a parameter bound to an expression of the caller is evaluated in the caller"""
+        def go2(y):
+            if isinstance(y, ast.Name) and inner_tol is not None and y.id == inner_tol:
+                return {(("tol", 1), ): 1.0}
+            if isinstance(y, ast.Name) and y.id in bound and not df.assignments(callee.node).get(y.id):
+                return go(bound[y.id]) if bound[y.id] is not None else None
+            if isinstance(y, ast.Name):
+                v = df.resolve_value(callee.node, y)
+                return go2(v) if v is not y else None
+            if isinstance(y, ast.Constant) and isinstance(y.value, (int, float)):
+                return {(): float(y.value)}
+            if isinstance(y, ast.Call) and df.is_xnp_call(y) == "norm" and y.args:
+                return {(("N", 1), ): 1.0}  # as in the caller: a norm taken when the threshold is set up is the norm of the initial residual
+            if isinstance(y, ast.BinOp) and isinstance(y.op, (ast.Add, ast.Sub)):
+                l, r = go2(y.left), go2(y.right)
+                if l is None or r is None:
+                    return None
+                out = dict(l)
+                for m, c in r.items():
+                    out[m] = out.get(m, 0.0) + (c if isinstance(y.op, ast.Add) else -c)
+                return out
+            if isinstance(y, ast.BinOp) and isinstance(y.op, ast.Mult):
+                l, r = go2(y.left), go2(y.right)
+                return None if l is None or r is None else mul(l, r)
+            return None
+        return go2(expr)
 
     p = go(e)
     return None if p is None else {m: c for m, c in p.items() if abs(c) > 1e-12}
